@@ -107,7 +107,8 @@ def handle : List String → String
   | ["shares", k, maxSeg, kshex, pthex] =>
     match k.toNat?, maxSeg.toNat?, bytesOfHex kshex, bytesOfHex pthex with
     | some k, some maxSeg, some ksb, some pt =>
-      match upload (ksOfBytes ksb) sysCodec () pt k k maxSeg with
+      let ksa := ksb.toArray
+      match upload (ksOfArray ksa) sysCodec () pt k k maxSeg with
       | .error e => showErr e
       | .ok u =>
         ",".intercalate (u.shares.map hexOfBytes) ++ ";" ++
@@ -116,12 +117,13 @@ def handle : List String → String
   | ["updown", k, maxSeg, kshex, pthex, seed] =>
     match k.toNat?, maxSeg.toNat?, bytesOfHex kshex, bytesOfHex pthex, seed.toNat? with
     | some k, some maxSeg, some ksb, some pt, some seed =>
-      match upload (ksOfBytes ksb) sysCodec () pt k k maxSeg with
+      let ksa := ksb.toArray
+      match upload (ksOfArray ksa) sysCodec () pt k k maxSeg with
       | .error e => showErr e
       | .ok u =>
         -- a rotation of 0..k-1 per segment: any order of the k share numbers
         let pick : Nat → List Nat := fun s => (List.range k).map (fun j => (j + seed + s) % k)
-        match download (ksOfBytes ksb) sysCodec u pick with
+        match download (ksOfArray ksa) sysCodec u pick with
         | .error e => showErr e
         | .ok out => hexOfBytes out
     | _, _, _, _, _ => "bad-op"
